@@ -211,6 +211,43 @@ theorem purephase_energy_shifted {nr nc : ℕ} (hr : 0 < nr) (hc : 0 < nc)
     rw [hshift p hp]
     exact rect_propagate hr hc (hprobes p hp) hT
 
+/-- the full `forward_operator`, with or without a descan shift (the descan ramp is one more
+unit-modulus factor on every exit wave): same conclusion for every `descan` argument -/
+theorem purephase_energy_descan {nr nc : ℕ} (hr : 0 < nr) (hc : 0 < nc)
+    (patches props probes : List (Img ℝ)) (descan : Option (ℝ × ℝ))
+    (hpatch : ∀ O ∈ patches, Rect nr nc O ∧ UnitModulus O)
+    (hprops : ∀ P ∈ props, Rect nr nc P ∧ UnitModulus P)
+    (hprobes : ∀ p ∈ probes, Rect nr nc p) :
+    rsum (detector (forwardOperator patches props probes descan).2) = (probes.map energy).sum := by
+  cases descan with
+  | none => exact purephase_energy hr hc patches props probes hpatch hprops hprobes
+  | some rc =>
+    obtain ⟨r, c⟩ := rc
+    have hex : ∀ p ∈ probes, Rect nr nc (overlapProjection1 patches props p).2
+        ∧ energy (overlapProjection1 patches props p).2 = energy p :=
+      fun p hp => overlapProjection1_energy hr hc patches props p (hprobes p hp) hpatch hprops
+    have hT : Rect nr nc (translationOperator nr nc r c) := by
+      rw [translationOperator_eq]; exact rect_build _ _ _
+    have hramp : ∀ o : Img ℝ, Rect nr nc o →
+        mulImg o (translationOperator (nrows o) (ncols o) r c) = mulImg o (translationOperator nr nc r c) := by
+      intro o ho
+      obtain ⟨f, rfl⟩ := ho.cx_build
+      rw [nrows_build, ncols_build hr]
+    simp only [forwardOperator, overlapProjection, List.map_map]
+    rw [rsum_detector hr hc]
+    · rw [List.map_map]
+      congr 1
+      apply List.map_congr_left
+      intro p hp
+      simp only [Function.comp]
+      rw [hramp _ (hex p hp).1, energy_mulImg_unit_right (hex p hp).1 hT (translation_unit_modulus nr nc r c)]
+      exact (hex p hp).2
+    · intro w hw
+      obtain ⟨p, hp, rfl⟩ := List.mem_map.1 hw
+      simp only [Function.comp]
+      rw [hramp _ (hex p hp).1]
+      exact rect_mulImg (hex p hp).1 hT
+
 /-- the model's own propagator arrays satisfy the hypothesis of `purephase_energy` -/
 theorem propagatorArrays_ok (nr nc : ℕ) (sr sc e thr thc : ℝ) (n : ℕ) (dzs : List ℝ) :
     ∀ P ∈ propagatorArrays nr nc sr sc e thr thc n dzs, Rect nr nc P ∧ UnitModulus P := by
